@@ -604,7 +604,9 @@ let op_colors (args : sx) : string =
       "(ok (" ^ String.concat " " (List.sort_uniq compare pairs) ^ "))"
   | _ -> raise (Bad "colors")
 let classify_gen (_ : sx) (real : string) (_ : string) : string =
-  if real = "(panic)" then "panic" else if real = "(not-a-formula)" then "illformed" else "output"
+  if real = "(panic)" then "panic" else if real = "(not-a-formula)" then "illformed"
+  else if real = "(vertex-list-not-a-permutation-of-the-vertices)" || real = "(copy-prefix-not-fresh)" || real = "(inconsistent-copy-prefix)" then "illformed"
+  else "output"
 let () =
   List.iter (fun (n, f) -> Hashtbl.replace table n f; Hashtbl.replace classifiers n classify_gen)
     [("queens", op_queens); ("queensbig", op_queensbig); ("sudoku", op_sudoku); ("clique", op_clique);
